@@ -354,6 +354,7 @@ def run_mos(args, cwd, timeout=60, env=None, stdin=None):
     """Runs the real mos binary. Returns dict(rc, out, err, timeout)."""
     e = dict(os.environ)
     e["MOS_VERIF_PASSES"] = e.get("MOS_VERIF_PASSES", "1500")
+    e["MOS_VERIF_WORK"] = e.get("MOS_VERIF_WORK", "20000000")
     if env:
         e.update(env)
     try:
